@@ -106,3 +106,219 @@ package gorums
 //@ lemma C19.lex-swo.transitive [C19.c] (a Int, b Int, c Int): swoR() && swoS() && relL(a, b) && relL(b, c) ==> relL(a, c)
 //@ lemma C19.lex-swo.incomparability-transitive [C19.c] (a Int, b Int, c Int): swoR() && swoS() && \
 //@     !relL(a, b) && !relL(b, a) && !relL(b, c) && !relL(c, b) ==> !relL(a, c) && !relL(c, a)
+
+// ---------------------------------------------------------------- quorumcall.go, async.go
+//
+// Ghost history of a call (DESIGN.md 2.2): the answers taken from the reply channel
+// so far are summarised by
+//   seen[nid]   the node has answered          failed[nid]  ... with an error
+//   okmsg[nid]  the message of its successful answer
+//   nH, nOK     number of answers / successful answers
+//   nQF, lastV, lastQ, everQ   quorum-function invocations, its latest result, quorum ever reported
+//   ntarget     number of nodes a request was enqueued for
+// Rely of the reply channel: each node answers a call at most once (guarantee side:
+// C05 - routeResponse/cancelPendingMsgs delete a non-streaming router in the critical
+// section that answers it; one registration per node and call).
+
+//@ func (*channel).enqueue
+//@   props C01 C02 C06
+//@   requires c != nil
+
+//@ func (RawConfiguration).getMsgID
+//@   props C01 C02
+//@   requires len(c) > 0 && c[0] != nil && c[0].mgr != nil
+
+//@ func (RawConfiguration).QuorumCall
+//@   props C01 C02 C06
+//@   nopanic C01 C02
+//@   requires len(c) > 0 && forall(m, 0, len(c), c[m] != nil && c[m].channel != nil) && c[0].mgr != nil
+//@   requires d.QuorumFunction != nil && ctx != nil
+//@   requires Incomplete != nil
+//@   ghost seen (Array Int Bool) = constarr("Int", false)
+//@   ghost failed (Array Int Bool) = constarr("Int", false)
+//@   ghost okmsg (Array Int Iface) = constarr("Int", nilI())
+//@   ghost nH Int = 0
+//@   ghost nOK Int = 0
+//@   ghost nQF Int = 0
+//@   ghost lastV Iface = nilI()
+//@   ghost lastQ Bool = false
+//@   ghost everQ Bool = false
+//@   ghost sawDone Bool = false
+//@   ghost ntarget Int = 0
+//@   ghost pnMsg Iface = nilI()
+//@   loop "for _, n := range c"
+//@     invariant[C02.b] expectedReplies - (len(c) - idx) == ntarget && 0 <= ntarget && ntarget <= idx
+//@     invariant cap(replyChan) == len(c) && replyChan != nil && !closed(replyChan)
+//@     invariant md != nil && ctx == old(ctx)
+//@   on call "d.PerNodeArgFn"
+//@     assert[C06.b] arg0 == old(d.Message) && arg1 == c[idx-1].id
+//@     after assume res0 != nil
+//@     after set pnMsg = res0
+//@   on call "n.channel.enqueue"
+//@     assert[C06.a] old(d.PerNodeArgFn) == nil ==> arg0.msg.Message == old(d.Message)
+//@     assert[C06.b] old(d.PerNodeArgFn) != nil ==> arg0.msg.Message == pnMsg
+//@     assert[C06.a] recv == c[idx-1].channel && arg0.ctx == old(ctx) && arg0.msg.Metadata == md && md.Method == old(d.Method)
+//@     assert[C05.a] arg1 == replyChan && arg2 == false && !arg0.opts.noSendWaiting && arg0.opts.callType == nil
+//@     after set ntarget = ntarget + 1
+//@   loop "for {"
+//@     invariant[C02.e] nH <= expectedReplies
+//@     invariant[C02.b] expectedReplies == ntarget
+//@     invariant[C02.b,C01.b] len(errs) == nH - nOK && len(replies) == nOK && 0 <= nOK && nOK <= nH
+//@     invariant[C02.c] !sawDone
+//@     invariant[C01.d] nQF == nOK
+//@     invariant[C01.h] !everQ
+//@     invariant[C01.b] replies != nil && forall(k, in(k, replies) <==> (seen[k] && !failed[k]))
+//@     invariant[C01.b] forall(k, in(k, replies) ==> replies[k] == okmsg[k])
+//@     invariant[C07.b] forall(m, 0, len(errs), failed[errs[m].nodeID] && seen[errs[m].nodeID])
+//@   on select
+//@     assert[C02.e] nH < expectedReplies
+//@     assert[C02.c] !sawDone
+//@   on recv "ctx.Done()"
+//@     set sawDone = true
+//@   on recv "replyChan" as r
+//@     assume !seen[r.nid]
+//@     set seen = store(seen, r.nid, true)
+//@     set failed = store(failed, r.nid, r.err != nil)
+//@     set okmsg = store(okmsg, r.nid, r.msg)
+//@     set nH = nH + 1
+//@     set nOK = nOK + ite(r.err == nil, 1, 0)
+//@   on call "d.QuorumFunction"
+//@     assert[C01.e] arg0 == old(d.Message)
+//@     assert[C01.f] arg1 == replies
+//@     assert[C01.d] nQF == nOK - 1
+//@     assert[C01.h] !everQ
+//@     assert[C01.g] forall(k, in(k, replies) ==> seen[k] && !failed[k] && replies[k] == okmsg[k])
+//@     assert[C01.b] forall(k, seen[k] && !failed[k] ==> in(k, replies))
+//@     after set nQF = nQF + 1
+//@     after set lastV = res0
+//@     after set lastQ = res1
+//@     after set everQ = everQ || res1
+//@   ensures[C01.a] err == nil ==> lastQ && resp == lastV && nQF >= 1
+//@   ensures[C02.a] err == nil ==> nQF == nOK && everQ
+//@   ensures[C02.d] err == nil || (typeis(err, "QuorumCallError") && \
+//@       (err.(QuorumCallError).cause == Incomplete || err.(QuorumCallError).cause == ctxErr(ctx)))
+//@   ensures[C02.b] typeis(err, "QuorumCallError") && err.(QuorumCallError).cause == Incomplete && Incomplete != ctxErr(ctx) ==> \
+//@       nH == ntarget && !everQ && len(err.(QuorumCallError).errors) + err.(QuorumCallError).replies == ntarget
+//@   ensures[C02.b] typeis(err, "QuorumCallError") ==> \
+//@       len(err.(QuorumCallError).errors) == nH - nOK && err.(QuorumCallError).replies == nOK
+//@   ensures[C02.c] typeis(err, "QuorumCallError") && err.(QuorumCallError).cause != Incomplete ==> done(ctx) && err.(QuorumCallError).cause == ctxErr(ctx)
+
+//@ func (RawConfiguration).AsyncCall
+//@   props C01 C02 C06
+//@   nopanic C01 C02
+//@   requires len(c) > 0 && forall(m, 0, len(c), c[m] != nil && c[m].channel != nil) && c[0].mgr != nil
+//@   requires d.QuorumFunction != nil && ctx != nil
+//@   requires Incomplete != nil
+//@   ghost ntarget Int = 0
+//@   ghost pnMsg Iface = nilI()
+//@   ghost spawned Int = 0
+//@   loop "for _, n := range c"
+//@     invariant[C02.b] expectedReplies - (len(c) - idx) == ntarget && 0 <= ntarget && ntarget <= idx
+//@     invariant cap(replyChan) == len(c) && replyChan != nil && !closed(replyChan)
+//@     invariant md != nil && ctx == old(ctx) && spawned == 0
+//@   on call "d.PerNodeArgFn"
+//@     assert[C06.b] arg0 == old(d.Message) && arg1 == c[idx-1].id
+//@     after assume res0 != nil
+//@     after set pnMsg = res0
+//@   on call "n.channel.enqueue"
+//@     assert[C06.a] old(d.PerNodeArgFn) == nil ==> arg0.msg.Message == old(d.Message)
+//@     assert[C06.b] old(d.PerNodeArgFn) != nil ==> arg0.msg.Message == pnMsg
+//@     assert[C06.a] recv == c[idx-1].channel && arg0.ctx == old(ctx) && arg0.msg.Metadata == md && md.Method == old(d.Method)
+//@     assert[C05.a] arg1 == replyChan && arg2 == false && !arg0.opts.noSendWaiting && arg0.opts.callType == nil
+//@     assert[C03.a] spawned == 0
+//@     after set ntarget = ntarget + 1
+//@   on go "c.handleAsyncCall"
+//@     assert[C02.b] arg2.expectedReplies == ntarget && arg2.replyChan == replyChan
+//@     assert[C01.e] arg2.data == old(d) && arg0 == old(ctx) && recv == old(c)
+//@     assert[C02.f] arg1 != nil && fresh(arg1) && arg1.c != nil && !closed(arg1.c) && arg1.reply == nil && arg1.err == nil
+//@     assert[C01.c] spawned == 0
+//@     after set spawned = spawned + 1
+//@   ensures[C02.f] result != nil && spawned == 1
+
+//@ func (RawConfiguration).handleAsyncCall
+//@   props C01 C02
+//@   nopanic C01 C02
+//@   requires fut != nil && fut.c != nil && !closed(fut.c) && ctx != nil
+//@   requires state.data.QuorumFunction != nil && state.expectedReplies >= 0
+//@   requires Incomplete != nil
+//@   ghost seen (Array Int Bool) = constarr("Int", false)
+//@   ghost failed (Array Int Bool) = constarr("Int", false)
+//@   ghost okmsg (Array Int Iface) = constarr("Int", nilI())
+//@   ghost nH Int = 0
+//@   ghost nOK Int = 0
+//@   ghost nQF Int = 0
+//@   ghost lastV Iface = nilI()
+//@   ghost lastQ Bool = false
+//@   ghost everQ Bool = false
+//@   ghost sawDone Bool = false
+//@   ghost writes Int = 0
+//@   loop "for {"
+//@     invariant[C02.e] nH <= state.expectedReplies
+//@     invariant[C02.b,C01.b] len(errs) == nH - nOK && len(replies) == nOK && 0 <= nOK && nOK <= nH
+//@     invariant[C02.c] !sawDone
+//@     invariant[C01.d] nQF == nOK
+//@     invariant[C01.h] !everQ
+//@     invariant[C01.b] replies != nil && forall(k, in(k, replies) <==> (seen[k] && !failed[k]))
+//@     invariant[C01.b] forall(k, in(k, replies) ==> replies[k] == okmsg[k])
+//@     invariant[C07.b] forall(m, 0, len(errs), failed[errs[m].nodeID] && seen[errs[m].nodeID])
+//@     invariant[C02.f] writes == 0 && !closed(fut.c)
+//@   on select
+//@     assert[C02.e] nH < state.expectedReplies
+//@     assert[C02.c] !sawDone
+//@   on recv "ctx.Done()"
+//@     set sawDone = true
+//@   on recv "state.replyChan" as r
+//@     assume !seen[r.nid]
+//@     set seen = store(seen, r.nid, true)
+//@     set failed = store(failed, r.nid, r.err != nil)
+//@     set okmsg = store(okmsg, r.nid, r.msg)
+//@     set nH = nH + 1
+//@     set nOK = nOK + ite(r.err == nil, 1, 0)
+//@   on call "state.data.QuorumFunction"
+//@     assert[C01.e] arg0 == old(state.data.Message)
+//@     assert[C01.f] arg1 == replies
+//@     assert[C01.d] nQF == nOK - 1
+//@     assert[C01.h] !everQ
+//@     assert[C01.g] forall(k, in(k, replies) ==> seen[k] && !failed[k] && replies[k] == okmsg[k])
+//@     assert[C01.b] forall(k, seen[k] && !failed[k] ==> in(k, replies))
+//@     after set nQF = nQF + 1
+//@     after set lastV = res0
+//@     after set lastQ = res1
+//@     after set everQ = everQ || res1
+//@   on store "Async.reply"
+//@     assert[C02.f] !closed(fut.c) && writes == 0
+//@     set writes = writes + 1
+//@   on store "Async.err"
+//@     assert[C02.f] !closed(fut.c) && writes == 1
+//@     set writes = writes + 1
+//@   ensures[C02.f] closed(fut.c) && writes == 2
+//@   ensures[C01.a] fut.err == nil ==> lastQ && fut.reply == lastV && nQF >= 1
+//@   ensures[C02.a] fut.err == nil ==> nQF == nOK && everQ
+//@   ensures[C02.d] fut.err == nil || (typeis(fut.err, "QuorumCallError") && \
+//@       (fut.err.(QuorumCallError).cause == Incomplete || fut.err.(QuorumCallError).cause == ctxErr(ctx)))
+//@   ensures[C02.b] typeis(fut.err, "QuorumCallError") && fut.err.(QuorumCallError).cause == Incomplete && Incomplete != ctxErr(ctx) ==> \
+//@       nH == state.expectedReplies && !everQ && \
+//@       len(fut.err.(QuorumCallError).errors) + fut.err.(QuorumCallError).replies == state.expectedReplies
+//@   ensures[C02.b] typeis(fut.err, "QuorumCallError") ==> \
+//@       len(fut.err.(QuorumCallError).errors) == nH - nOK && fut.err.(QuorumCallError).replies == nOK
+//@   ensures[C02.c] typeis(fut.err, "QuorumCallError") && fut.err.(QuorumCallError).cause != Incomplete ==> \
+//@       done(ctx) && fut.err.(QuorumCallError).cause == ctxErr(ctx)
+
+// The future's channel is never sent on (field mode below): a receive that returns
+// means it was closed; reply and err are written only before the close.
+//@ field Async.reply writers (RawConfiguration).handleAsyncCall props C02 C15
+//@ field Async.err writers (RawConfiguration).handleAsyncCall props C02 C15
+//@ field Async.c closeonly props C02
+
+//@ func (*Async).Get
+//@   props C02
+//@   nopanic C02
+//@   requires f != nil
+//@   ensures[C02.f] closed(f.c) && result0 == f.reply && result1 == f.err
+
+//@ func (*Async).Done
+//@   props C02
+//@   nopanic C02
+//@   requires f != nil
+//@   ensures[C02.f] closed(f.c) ==> result
+//@   ensures[C02.f] result ==> closed(f.c)
